@@ -194,21 +194,23 @@ def locate(src, m, locators):
     found = None
     for loc in locators:
         loc = loc.strip()
-        kind, _, rest = loc.partition(" ")
-        rest = rest.strip()
+        mo = re.match(r"(fn|struct|enum|trait|impl|type|const|mod|static)\b(.*)$", loc, re.S)
+        if not mo:
+            raise Undecided("bad locator `%s`" % loc)
+        kind, rest = mo.group(1), mo.group(2).strip()
         cands = []
         for (kw, name, s, e, bo) in scan_items(src, m, lo, hi):
             if kw != kind:
                 # descend into `mod` transparently? no: only explicit paths
                 continue
             if kind == "impl":
-                if tight(name) == tight("impl " + rest) or tight(name) == tight(rest):
+                if tight(name) == tight("impl" + rest):
                     cands.append((s, e, bo))
             elif name == rest:
                 cands.append((s, e, bo))
         if kind == "impl" and not cands:
             for (kw, name, s, e, bo) in scan_items(src, m, lo, hi):
-                if kw == "impl" and tight(rest) in tight(name):
+                if kw == "impl" and tight("impl" + rest) in tight(name):
                     cands.append((s, e, bo))
         if len(cands) != 1:
             raise Undecided("LOST-ANCHOR: locator `%s` matched %d items" % (loc, len(cands)))
@@ -270,6 +272,20 @@ class Item:
             j += 1
         end = match_brace(self.m, body_open) + 1 if body_open is not None else j + 1
         return k, pclose, body_open, end, j
+
+    def lead_start(self, s):
+        """start of the doc-comment / attribute lines immediately preceding position s"""
+        ls = self.text.rfind("\n", 0, s) + 1
+        if self.text[ls:s].strip():
+            return s
+        while ls > 0:
+            pl = self.text.rfind("\n", 0, ls - 1) + 1
+            t = self.text[pl:ls].strip()
+            if t.startswith("//") or t.startswith("#["):
+                ls = pl
+            else:
+                break
+        return ls
 
     def where(self):
         return "%s :: %s" % (self.relpath, " :: ".join(self.locators))
@@ -415,7 +431,7 @@ class Item:
         for (kw, name, s, e, b) in scan_items(self.text, self.m, bo + 1, end):
             if kw == "fn" and name not in names:
                 # include preceding attributes / doc comments lines
-                self.rewrite(s, e, "", "R1-dropfn")
+                self.rewrite(self.lead_start(s), e, "", "R1-dropfn")
             elif kw != "fn" and kw not in ("type", "const"):
                 pass
         for nm in names:
@@ -445,7 +461,7 @@ class Item:
         return j
 
     def r3_all(self, fn, k):
-        """let V = RECV.iter().all(|P| BODY);   ==>  index while-loop with early exit"""
+        """let V = RECV.iter().all(|P| BODY);   ==>  index while-loop with early exit (BODY stays in place)"""
         k0, _, bo, end, _ = self.fn_span(fn)
         hits = list(re.finditer(r"\.\s*iter\s*\(\s*\)\s*\.\s*all\s*\(", self.m[bo:end]))
         if len(hits) < k:
@@ -457,14 +473,12 @@ class Item:
         semi = self.m.find(";", close)
         head = self.text[s0:bo + h.start()]
         mo = re.match(r"let\s+([A-Za-z_][A-Za-z0-9_]*)\s*=\s*(.*)$", head, re.S)
-        if not mo:
+        if not mo or self.text[close + 1:semi].strip():
             raise Undecided("R3 all: statement shape not recognised at %s:%d" % (self.relpath, self.line_of(s0)))
         var, recv = mo.group(1), mo.group(2).strip()
-        body = self.text[bs:be].strip()
-        new = ("let mut %s = true;\n    let mut vx_i: usize = 0;\n    while vx_i < %s.len()\n    /*@loop*/\n    {\n"
-               "      let %s = &%s[vx_i];\n      if !(%s) { %s = false; break; }\n      vx_i = vx_i + 1;\n    }"
-               % (var, recv, p, recv, body, var))
-        self.rewrite(s0, semi + 1, new, "R3-all")
+        self.rewrite(s0, bs, "let mut %s = true;\n    let mut vx_i: usize = 0;\n    while vx_i < %s.len()\n    /*@loop*/\n    {\n"
+                     "      let %s = &%s[vx_i];/*@body*/\n      if !(" % (var, recv, p, recv), "R3-all")
+        self.rewrite(be, semi + 1, ") { %s = false; break; }\n      vx_i = vx_i + 1;\n    }" % var, "R3-all")
 
     def r3_find_map(self, fn, k):
         """let V = RECV.iter().find_map(|P| { S* ; E });  ==> index while-loop, first Some wins"""
@@ -479,24 +493,29 @@ class Item:
         semi = self.m.find(";", close)
         head = self.text[s0:bo + h.start()]
         mo = re.match(r"let\s+([A-Za-z_][A-Za-z0-9_]*)\s*=\s*(.*)$", head, re.S)
-        if not mo:
+        if not mo or self.text[close + 1:semi].strip():
             raise Undecided("R3 find_map: statement shape not recognised at %s:%d" % (self.relpath, self.line_of(s0)))
         var, recv = mo.group(1), mo.group(2).strip()
-        body = self.text[bs:be].strip()
-        if body.startswith("{"):
-            inner = body[1:body.rindex("}")].strip()
-            cut = mask(inner).rfind(";")
-            stmts, expr = (inner[:cut + 1], inner[cut + 1:].strip()) if cut >= 0 else ("", inner)
+        hdr = ("let mut %s = None;\n    let mut vx_i: usize = 0;\n    while vx_i < %s.len()\n    /*@loop*/\n    {\n"
+               "      let %s = &%s[vx_i];/*@body*/\n      " % (var, recv, p, recv))
+        tail = ";\n      if vx_r.is_some() { %s = vx_r; break; }\n      vx_i = vx_i + 1;\n    }" % var
+        if self.text[bs] == "{":
+            cb_close = match_brace(self.m, bs)
+            if self.text[cb_close + 1:be].strip():
+                raise Undecided("R3 find_map: closure body shape not recognised")
+            cut = self.m.rfind(";", bs, cb_close)
+            # statements S* stay in place; E is the tail expression
+            e0 = cut + 1 if cut >= 0 else bs + 1
+            self.rewrite(s0, bs + 1, hdr, "R3-find_map")
+            self.rewrite(e0, e0, "\n      let vx_r = ", "R3-find_map")
+            self.rewrite(cb_close, semi + 1, tail, "R3-find_map")
         else:
-            stmts, expr = "", body
-        new = ("let mut %s = None;\n    let mut vx_i: usize = 0;\n    while vx_i < %s.len()\n    /*@loop*/\n    {\n"
-               "      let %s = &%s[vx_i];\n      %s\n      let vx_r = %s;\n      if vx_r.is_some() { %s = vx_r; break; }\n"
-               "      vx_i = vx_i + 1;\n    }" % (var, recv, p, recv, stmts, expr, var))
-        self.rewrite(s0, semi + 1, new, "R3-find_map")
+            self.rewrite(s0, bs, hdr + "let vx_r = ", "R3-find_map")
+            self.rewrite(be, semi + 1, tail, "R3-find_map")
 
     def r3_for_index(self, fn, k):
         """for X in RECV { BODY }  (RECV a slice/Vec/&Vec expression) ==> index while-loop;
-        `continue` inside BODY is preceded by the index increment"""
+        `continue` inside BODY is preceded by the index increment; BODY stays in place"""
         ls = self.loops(fn)
         if k > len(ls) or ls[k - 1][0] != "for":
             raise Undecided("LOST-ANCHOR: R3 for-index loop %d of fn %s in %s" % (k, fn, self.where()))
@@ -506,26 +525,15 @@ class Item:
         if not mo:
             raise Undecided("R3 for-index: header not recognised")
         pat, recv = mo.group(1).strip(), mo.group(2).strip()
-        body = self.text[bopen + 1:bclose]
-        bm = self.m[bopen + 1:bclose]
-        # guard: nested loops with their own continue are not handled
-        if re.search(r"\b(for|while|loop)\b", bm) and re.search(r"\bcontinue\b", bm):
-            inner_loops = [x for x in ls if x[1] > bopen and x[1] < bclose]
-            for (_, ls_, lo_, lc_) in inner_loops:
-                if re.search(r"\bcontinue\b", self.m[lo_:lc_]):
-                    raise Undecided("R3 for-index: continue inside nested loop")
-        out, last = [], 0
-        for c in re.finditer(r"\bcontinue\b", bm):
-            out.append(body[last:c.start()])
-            out.append("{ vx_i = vx_i + 1; continue }")
-            last = c.end()
-        out.append(body[last:])
-        body2 = "".join(out)
+        inner = [x for x in ls if bopen < x[1] < bclose]
         r = recv[1:].strip() if recv.startswith("&") else recv
-        amp = "&" if (recv.startswith("&") or True) else ""
-        new = ("let mut vx_i: usize = 0;\n    while vx_i < %s.len()\n    /*@loop*/\n    {\n      let %s = %s%s[vx_i];%s\n      vx_i = vx_i + 1;\n    }"
-               % (r, pat, amp, r, body2.rstrip()))
-        self.rewrite(s, bclose + 1, new, "R3-for-index")
+        self.rewrite(s, bopen + 1, "let mut vx_i: usize = 0;\n    while vx_i < %s.len()\n    /*@loop*/\n    {\n      let %s = &%s[vx_i];/*@body*/" % (r, pat, r), "R3-for-index")
+        for c in re.finditer(r"\bcontinue\b", self.m[bopen + 1:bclose]):
+            cpos = bopen + 1 + c.start()
+            if any(lo_ < cpos < lc_ for (_, _, lo_, lc_) in inner):
+                continue  # belongs to a nested loop
+            self.rewrite(cpos, cpos + len("continue"), "{ vx_i = vx_i + 1; continue }", "R3-for-index")
+        self.rewrite(bclose, bclose, "  vx_i = vx_i + 1;\n    ", "R3-for-index")
 
     # -- output ----------------------------------------------------------------------------------
     def render(self):
@@ -630,6 +638,7 @@ def parse_directives(body):
 def build_unit(unit_path, repo=REPO):
     """returns dict(generated=str, items=[...], linemap=[...], log=[...])"""
     tmpl = open(unit_path).read()
+    tmpl = re.sub(r"/\*@include\s+(\S+?)\s*@\*/", lambda mo: open(os.path.join(HERE, mo.group(1))).read(), tmpl)
     gen_chunks = []   # (text, origin) origin = ("tmpl", line) | ("repo", relpath, line) | ("ghost", relpath, line)
     items = []
     pos = 0
@@ -687,8 +696,15 @@ def build_unit(unit_path, repo=REPO):
                 it.d_R3(args[0], args[1], int(args[2]) if len(args) > 2 else 1)
                 if payload is not None:
                     # payload = invariant for the generated loop
-                    tag, ed = it.edits[-1][3], it.edits[-1]
-                    it.edits[-1] = (ed[0], ed[1], ed[2].replace("/*@loop*/", "/*+vx*/" + payload + "/*-vx*/"), ed[3], ed[4])
+                    for ei in range(len(it.edits) - 1, -1, -1):
+                        ed = it.edits[ei]
+                        if "/*@loop*/" in ed[2]:
+                            inv, _, bodytxt = payload.partition("---body---")
+                            new = ed[2].replace("/*@loop*/", "/*+vx*/" + inv + "/*-vx*/")
+                            if bodytxt.strip():
+                                new = new.replace("/*@body*/", "/*+vx*/" + bodytxt + "/*-vx*/")
+                            it.edits[ei] = (ed[0], ed[1], new, ed[3], ed[4])
+                            break
             elif name == "R4":
                 it.d_R4(args[0], args[1], "R4")
             elif name == "R6":
@@ -700,7 +716,7 @@ def build_unit(unit_path, repo=REPO):
             else:
                 raise Undecided("unknown directive %s in %s" % (name, unit_path))
         parts = it.render()
-        text = "".join(p[1] for p in parts).replace("/*@loop*/", "")
+        text = "".join(p[1] for p in parts).replace("/*@loop*/", "").replace("/*@body*/", "")
         # erasure check
         back = erase(text, it.log)
         if tokens_keep_strings(back) != tokens_keep_strings(it.text):
@@ -727,7 +743,7 @@ def build_unit(unit_path, repo=REPO):
             # approximate: walk the rendered parts
             cur = []
             for (tag, chunk, line) in it.render():
-                chunk = chunk.replace("/*@loop*/", "")
+                chunk = chunk.replace("/*@loop*/", "").replace("/*@body*/", "")
                 for k in range(chunk.count("\n")):
                     cur.append(("repo" if tag == "src" else tag, it.relpath, line + (k if tag == "src" else 0), origin[1]))
             cur = cur[:n] + [cur[-1] if cur else ("repo", it.relpath, it.line0, origin[1])] * max(0, n - len(cur))
@@ -786,14 +802,22 @@ def fn_table(generated):
                 qual = hdr
         l0 = generated.count("\n", 0, mo.start()) + 1
         l1 = generated.count("\n", 0, e) + 1
-        res.append({"name": mo.group(1), "l0": l0, "l1": l1, "in": qual, "has_body": bo is not None})
+        # qualifiers / attributes in front of `fn`
+        k = mo.start()
+        while k > 0 and m[k - 1] not in ";{}":
+            k -= 1
+        pre = generated[k:mo.start()]
+        mode = "spec" if re.search(r"\bspec\b", pre) else ("proof" if re.search(r"\b(proof|axiom)\b", pre) else "exec")
+        trusted = "external_body" in pre or "external" in pre or re.search(r"\b(axiom|uninterp)\b", pre) is not None
+        res.append({"name": mo.group(1), "l0": l0, "l1": l1, "in": qual, "has_body": bo is not None,
+                    "mode": mode, "trusted": bool(trusted)})
     return res
 
 
 def short_qual(hdr):
     if not hdr:
         return ""
-    mo = re.search(r"\bfor\s+([A-Za-z_][A-Za-z0-9_]*)", hdr)
+    mo = re.search(r"\bfor\s+(&?\s*[A-Za-z_][A-Za-z0-9_]*)", hdr)
     if mo:
         tr = re.search(r"impl(?:<.*?>)?\s+([A-Za-z_][A-Za-z0-9_:]*)", hdr)
         return "<%s as %s>" % (mo.group(1), tr.group(1) if tr else "?")
@@ -880,7 +904,7 @@ def verify_unit(unit, workdir, repo=REPO, rlimit=None):
         # ensures clause (same fn); for a failed precondition the primary span is the callee's
         # requires clause and the secondary span the call site -> use the call site.
         own_line = line
-        if "precondition" in msg:
+        if "precondition" in msg or "postcondition" in msg:
             sec = [s for s in spans if not s.get("is_primary")]
             if sec:
                 own_line = sec[0]["line_start"]
